@@ -33,6 +33,9 @@ pub enum Step {
     AppendResp { from: u8, ok: bool, back: u8, dterm: i8 },
     Propose { payload: u32 },
     Tick,
+    /// the node receives and installs a snapshot of `n` entries (built by a real donor
+    /// node through the public create_snapshot) whose last term is current+dterm
+    InstallSnapshot { n: u8, dterm: i8 },
     Advance { ms: u32 },
     /// injected disk error on the nth mutating syscall from now: 0 EIO, 1 ENOSPC, 2 EINTR, 3 short write
     Fault { nth: u8, kind: u8 },
@@ -89,6 +92,11 @@ struct Trial<'a> {
     payload_seq: u64,
     tag: u64,
     disk_faults_at_start: u64,
+    /// the scripted peers respect election safety and leader append-only: one leader
+    /// per term, one entry per (term, index) — otherwise the scripted histories would
+    /// lie outside what any Raft cluster can produce
+    term_leader: BTreeMap<u64, String>,
+    script_entries: BTreeMap<(u64, u64), u64>,
 }
 
 fn lcp(a: &[Ent], b: &[Ent]) -> usize {
@@ -100,7 +108,7 @@ impl<'a> Trial<'a> {
         // each trial gets its own node directory name so files never mix
         let (cl, r) = Cluster::new_partial(ctx, 3, raft_cfg(case), true, &[]);
         let _ = r;
-        let mut t = Trial { ctx, case, cl, acked: Vec::new(), votes: BTreeMap::new(), max_term_sent: 0, payload_seq: tag * 1000, tag, disk_faults_at_start: 0 };
+        let mut t = Trial { ctx, case, cl, acked: Vec::new(), votes: BTreeMap::new(), max_term_sent: 0, payload_seq: tag * 1000, tag, disk_faults_at_start: 0, term_leader: BTreeMap::new(), script_entries: BTreeMap::new() };
         t.disk_faults_at_start = ctx.lock().faults.iter().filter(|(k, _)| k.starts_with("disk_")).map(|(_, v)| *v).sum();
         // fresh WAL file per trial, nothing armed from a previous trial
         ctx.disarm_crash();
@@ -122,6 +130,26 @@ impl<'a> Trial<'a> {
             class: "restart-failed".into(),
             detail: format!("{what}: RaftNode::with_wal failed on a log the node wrote itself: {e}"),
         })
+    }
+
+    /// The term a scripted leader may use: the wanted one, moved up past terms that
+    /// already have a different leader.
+    fn leader_term(&mut self, wanted: u64, leader: &str) -> u64 {
+        let mut t = wanted;
+        while self.term_leader.get(&t).is_some_and(|l| l != leader) {
+            t += 1;
+        }
+        self.term_leader.insert(t, leader.to_string());
+        t
+    }
+
+    fn script_payload(&mut self, term: u64, index: u64) -> u64 {
+        if let Some(p) = self.script_entries.get(&(term, index)) {
+            return *p;
+        }
+        self.payload_seq += 1;
+        self.script_entries.insert((term, index), self.payload_seq);
+        self.payload_seq
     }
 
     fn node_image(&self) -> Image {
@@ -213,8 +241,8 @@ impl<'a> Trial<'a> {
                 }
             },
             Step::Append { from, dterm, back, n, commit_back, bad_prev } => {
-                let term = rel(*dterm);
                 let leader = format!("n{}", 1 + from % 2);
+                let term = self.leader_term(rel(*dterm), &leader);
                 let prev = if *back >= 3 { l + 1 } else { l.saturating_sub(u64::from(*back)) };
                 let mut prev_term = if prev == 0 {
                     0
@@ -226,8 +254,8 @@ impl<'a> Trial<'a> {
                 }
                 let mut entries = Vec::new();
                 for j in 0..u64::from(*n % 4) {
-                    self.payload_seq += 1;
-                    entries.push(LogEntry::new(term, prev + 1 + j, mk_block(self.payload_seq, &leader, self.case.fast_path)));
+                    let pl = self.script_payload(term, prev + 1 + j);
+                    entries.push(LogEntry::new(term, prev + 1 + j, mk_block(pl, &leader, self.case.fast_path)));
                 }
                 let commit = (prev + entries.len() as u64).saturating_sub(u64::from(*commit_back));
                 let emb = entries.last().map(|e| e.block.header.delta_embedding.clone());
@@ -286,6 +314,38 @@ impl<'a> Trial<'a> {
             },
             Step::Tick => {
                 let _ = crate::net::now_or_never(node.tick_async());
+            },
+            Step::InstallSnapshot { n, dterm } => {
+                let term = self.leader_term(rel(*dterm).max(lt), "n2");
+                let cnt = 1 + u64::from(*n % 5);
+                // donor: a real node that holds `cnt` committed, finalized entries
+                let all: Vec<String> = vec!["n0".into(), "n1".into(), "n2".into()];
+                let tr = crate::net::SimTransport::new("n1", &all, &crate::net::new_net());
+                let donor = tensor_chain::raft::RaftNode::new("n1".into(), vec!["n0".into(), "n2".into()], tr, raft_cfg(self.case));
+                let mut entries = Vec::new();
+                for j in 0..cnt {
+                    let pl = self.script_payload(term, 1 + j);
+                    entries.push(LogEntry::new(term, 1 + j, mk_block(pl, "n2", false)));
+                }
+                let ae = Message::AppendEntries(AppendEntries {
+                    term,
+                    leader_id: "n2".into(),
+                    prev_log_index: 0,
+                    prev_log_term: 0,
+                    entries,
+                    leader_commit: cnt,
+                    block_embedding: None,
+                });
+                let _ = donor.handle_message(&"n2".to_string(), &ae);
+                if donor.finalize_to(cnt).is_ok() {
+                    if let Ok((meta, data)) = donor.create_snapshot() {
+                        let r = node.install_snapshot(meta, &data);
+                        self.ctx.event(&format!("install snapshot of {cnt} entries, last term {term} -> {:?}", r.as_ref().map_err(|e| e.to_string())));
+                        if r.is_ok() && !self.ctx.is_dead(NODE) {
+                            self.ctx.probe("snapshot_installed");
+                        }
+                    }
+                }
             },
             Step::Advance { ms } => {
                 self.ctx.set_node(None);
@@ -465,6 +525,7 @@ impl<'a> Trial<'a> {
                     ctx.fp(&format!("{}{}", role_str(n.state()), a.log.len().min(6)));
                     if n.state() == RaftState::Leader {
                         ctx.probe("became_leader");
+                        self.term_leader.insert(a.term, NODE.to_string());
                     }
                     i += 1;
                     continue;
@@ -576,6 +637,8 @@ fn gen_steps(rng: &mut Rng, n: usize, faults: bool) -> Vec<Step> {
             Step::AppendResp { from: rng.below(2) as u8, ok: rng.chance(3, 4), back: rng.below(3) as u8, dterm: if rng.chance(1, 8) { 1 } else { 0 } }
         } else if r < 90 {
             Step::Propose { payload: rng.below(1000) as u32 }
+        } else if r < 91 {
+            Step::InstallSnapshot { n: rng.below(5) as u8, dterm: rng.range(0, 1) as i8 }
         } else if r < 93 {
             Step::Tick
         } else if r < 96 || !faults {
@@ -600,7 +663,7 @@ impl Scenario for C10 {
     }
     fn runs(&self, tier: Tier) -> u64 {
         match tier {
-            Tier::Quick => 3000,
+            Tier::Quick => 1500,
             Tier::Thorough => 60000,
         }
     }
